@@ -40,6 +40,7 @@ PROPS = {
         subs=[
             rapid("flow", "TestC01Flow", 1500, 8000),
             rapid("all-paths", "TestC01AllPaths", 120, 600),
+            fuzz("flow", "FuzzC01Flow", 60),
         ],
     ),
     "C02": dict(
@@ -59,6 +60,7 @@ PROPS = {
             rapid("eval", "TestC02Eval", 20000, 200000),
             enum("operator-table", "TestC02OperatorTable"),
             enum("precedence-triples", "TestC02PrecedenceTriples"),
+            fuzz("eval", "FuzzC02Eval", 45),
         ],
     ),
     "C03": dict(
@@ -76,6 +78,7 @@ PROPS = {
         subs=[
             rapid("histories", "TestC03Histories", 5000, 50000, env=dict(quick=dict(VERIF_C03_STEPS=25), thorough=dict(VERIF_C03_STEPS=60))),
             enum("operator-table", "TestC03OperatorTable"),
+            fuzz("histories", "FuzzC03Histories", 45),
         ],
     ),
     "C04": dict(
@@ -96,6 +99,7 @@ PROPS = {
         subs=[
             rapid("rendering", "TestC04Rendering", 10000, 100000),
             enum("character-table", "TestC04CharacterTable"),
+            fuzz("rendering", "FuzzC04Rendering", 45),
         ],
     ),
     "C05": dict(
@@ -135,6 +139,7 @@ PROPS = {
         subs=[
             rapid("faults", "TestC06Faults", 2500, 25000),
             enum("fault-matrix", "TestC06FaultMatrix"),
+            fuzz("faults", "FuzzC06Faults", 60),
             rapid("random-domain", "TestC06RandomDomain", 20000, 200000),
             rapid("ill-typed-expressions", "TestC06IllTypedExpressions", 10000, 100000),
             enum("operator-table", "TestC06OperatorTable"),
@@ -169,7 +174,10 @@ PROPS = {
         rule="program x layout (about 450 layout decisions on a tape biased to the canonical choice) x 2 choice lists; non-trivial = layout differs from canonical in at "
              "least two dimensions, one of them a blank/whitespace-only/comment line, and the traces hold at least 3 elements; distinct = distinct serialised cases.",
         assumptions=["indentation mixing tabs and blanks inside one line is a syntax error (C05), not layout"],
-        subs=[rapid("layouts", "TestC08Layouts", 500, 5000)],
+        subs=[
+            rapid("layouts", "TestC08Layouts", 500, 5000),
+            fuzz("layouts", "FuzzC08Layouts", 60),
+        ],
     ),
     "C09": dict(
         technique="differential PBT over pairs of executions (same process with interfering runners and global math/rand use in between; fresh child processes) + range predicate over captured draws",
@@ -252,6 +260,7 @@ PROPS = {
         subs=[
             rapid("parse", "TestC13Parse", 15000, 150000),
             enum("enumerated", "TestC13Enumerated"),
+            fuzz("parse", "FuzzC13Parse", 45),
         ],
     ),
     "C14": dict(
@@ -267,6 +276,7 @@ PROPS = {
             rapid("pure", "TestC14Pure", 10000, 100000),
             enum("pairs", "TestC14Pairs", env=dict(quick=dict(VERIF_C14_HISTORY_ATOMS=2, VERIF_C14_PROBE_ATOMS=3),
                                                   thorough=dict(VERIF_C14_HISTORY_ATOMS=3, VERIF_C14_PROBE_ATOMS=3))),
+            fuzz("pure", "FuzzC14Pure", 45),
         ],
     ),
     "C15": dict(
@@ -322,6 +332,7 @@ PROPS = {
         subs=[
             rapid("arguments", "TestC17Arguments", 10000, 100000),
             enum("word-table", "TestC17WordTable"),
+            fuzz("arguments", "FuzzC17Arguments", 45),
         ],
     ),
     "C18": dict(
